@@ -1290,10 +1290,11 @@ func (g *Gen) bitop(fr *frame, st *State, op token.Token, x, y *Value, rt types.
 			return &Value{T: rt, L: []string{"(+ " + a + " " + b + ")"}, Bits: bits, LowZ: lowz}
 		}
 	case token.AND:
-		if n, ok := litVal(b); ok && n >= 0 && (n&(n+1)) == 0 && !signed {
+		// x & (2^k - 1) is x mod 2^k (SMT mod is non-negative; in two's complement this also holds for negative x)
+		if n, ok := litVal(b); ok && n >= 0 && (n&(n+1)) == 0 {
 			return &Value{T: rt, L: []string{"(mod " + a + " " + fmt.Sprint(n+1) + ")"}}
 		}
-		if n, ok := litVal(a); ok && n >= 0 && (n&(n+1)) == 0 && !signed {
+		if n, ok := litVal(a); ok && n >= 0 && (n&(n+1)) == 0 {
 			return &Value{T: rt, L: []string{"(mod " + b + " " + fmt.Sprint(n+1) + ")"}}
 		}
 	}
